@@ -134,7 +134,8 @@ Print Assumptions C03_prims_agree.
 
 (* FULL STRENGTH (no `_refuted` left since /repo 61ca8bb, bac28d6, 3c0ba5f): for every type tree the analyzer
    accepts - primitives of the table, arrays of any length including 0, packed records, records with or
-   without fields and a power-of-two user alignment (up to 65536), unions, nested arbitrarily - the
+   without fields and a power-of-two user alignment up to 2^28 (exactly what the analyzer accepts since /repo
+   42ec760; the bound is scraped), unions, nested arbitrarily - the
    compiler's size AND alignment are the C compiler's, hence the emitted static assertion holds, and every
    record field offset coincides *)
 Theorem C03_layout_agrees : forall t, wfb t = true ->
